@@ -2,6 +2,7 @@ import Driver.OpsRw
 import Bec2Verif.Model.Der
 import Bec2Verif.Model.PointCodec
 import Bec2Verif.Model.KeyDer
+import Bec2Verif.Model.CurveDer
 import Bec2Verif.Gen.Curves
 open Bec2Verif Driver Der
 namespace Driver
@@ -126,8 +127,36 @@ def opKeyFromDer : List String → String
     | none => "bad-op"
   | _ => "bad-op"
 
+def showSInt (i : Int) : String := if i < 0 then "n" ++ toString (-i).toNat else toString i.toNat
+
+/-- curve.toder <p> <a> <b> <gx> <gy> <order> <cofactor|-> <point-encoding> : `Curve.to_der("explicit", point_encoding)` of a
+curve object with these parameters -/
+def opCurveToDer : List String → String
+  | [p, a, b, gx, gy, order, cof, enc] =>
+    match p.toNat?, parseInt a, parseInt b, gx.toNat?, gy.toNat?, order.toNat?, parsePtEnc enc with
+    | some p, some a, some b, some gx, some gy, some order, some enc =>
+      let c : Option (Option Nat) := if cof == "-" then some none else cof.toNat?.map some
+      (match c with
+       | some c =>
+         (match toBytes { p := p, a := a, b := b } enc gx gy with
+          | .ok base => resBytes (CurveDer.toDer p a b base order c)
+          | .error e => "err " ++ e.name)
+       | none => "bad-op")
+    | _, _, _, _, _, _, _ => "bad-op"
+  | _ => "bad-op"
+
+/-- curve.fromder <derhex> : `Curve.from_der` on explicit parameters -/
+def opCurveFromDer : List String → String
+  | [d] => match parseHex d with
+    | some data => (match CurveDer.fromDer data with
+      | .ok f => "ok " ++ f.name ++ " " ++ toString f.p ++ " " ++ showSInt f.a ++ " " ++ showSInt f.b ++ " " ++ toString f.gx ++ " " ++
+          toString f.gy ++ " " ++ toString f.order ++ " " ++ (match f.cofactor with | some h => toString h | none => "-")
+      | .error e => "err " ++ e.name)
+    | none => "bad-op"
+  | _ => "bad-op"
+
 def codecOps : List (String × (List String → String)) :=
   [("pt.enc", opPtEnc), ("pt.dec", opPtDec), ("nt.sqrt", opSqrt), ("spki", opSpki), ("spki.parse", opSpkiParse),
-   ("key.toder", opKeyToDer), ("key.fromder", opKeyFromDer)]
+   ("key.toder", opKeyToDer), ("key.fromder", opKeyFromDer), ("curve.toder", opCurveToDer), ("curve.fromder", opCurveFromDer)]
 
 end Driver
